@@ -45,14 +45,14 @@ type Ctx struct {
 	exhaustive *bool
 	extra      map[string]any
 
-	violations []violation
+	violations     []violation
 	replaysWritten int
-	artifacts int
-	vioSeen    map[string]int
-	knownHits  map[string]int
-	knownWhat  map[string]string
-	findings   []Finding
-	inconcl    []string
+	artifacts      int
+	vioSeen        map[string]int
+	knownHits      map[string]int
+	knownWhat      map[string]string
+	findings       []Finding
+	inconcl        []string
 }
 
 type violation struct {
@@ -155,15 +155,23 @@ func (c *Ctx) Sample(v any) {
 	c.mu.Unlock()
 }
 
-func (c *Ctx) Rule(s string)             { c.rule = s }
-func (c *Ctx) Assume(s ...string)        { c.assume = append(c.assume, s...) }
-func (c *Ctx) Exhaustive(b bool)         { c.exhaustive = &b }
-func (c *Ctx) Extra(k string, v any)     { c.mu.Lock(); c.extra[k] = v; c.mu.Unlock() }
-func (c *Ctx) Inconclusive(why string)   { c.mu.Lock(); c.inconcl = append(c.inconcl, why); c.mu.Unlock() }
-func (c *Ctx) Counter(key string) int64  { c.mu.Lock(); defer c.mu.Unlock(); return c.counters[key] }
-func (c *Ctx) Evaluations() int64        { c.mu.Lock(); defer c.mu.Unlock(); return c.evals }
-func (c *Ctx) ViolationCount() int       { c.mu.Lock(); defer c.mu.Unlock(); return len(c.violations) }
-func (c *Ctx) SeenCount(table string) int { c.mu.Lock(); defer c.mu.Unlock(); return len(c.sets[table]) }
+func (c *Ctx) Rule(s string)         { c.rule = s }
+func (c *Ctx) Assume(s ...string)    { c.assume = append(c.assume, s...) }
+func (c *Ctx) Exhaustive(b bool)     { c.exhaustive = &b }
+func (c *Ctx) Extra(k string, v any) { c.mu.Lock(); c.extra[k] = v; c.mu.Unlock() }
+func (c *Ctx) Inconclusive(why string) {
+	c.mu.Lock()
+	c.inconcl = append(c.inconcl, why)
+	c.mu.Unlock()
+}
+func (c *Ctx) Counter(key string) int64 { c.mu.Lock(); defer c.mu.Unlock(); return c.counters[key] }
+func (c *Ctx) Evaluations() int64       { c.mu.Lock(); defer c.mu.Unlock(); return c.evals }
+func (c *Ctx) ViolationCount() int      { c.mu.Lock(); defer c.mu.Unlock(); return len(c.violations) }
+func (c *Ctx) SeenCount(table string) int {
+	c.mu.Lock()
+	defer c.mu.Unlock()
+	return len(c.sets[table])
+}
 
 // Replay is what is written to a replay file.
 type Replay struct {
